@@ -41,6 +41,16 @@ CLAIMED = {
    text="Generated closed curves with rational/float split parameters including near-0/1, repeated and several per segment, then clean() and a second split/clean round; pieces must retrace the original, junctions lie on it at the split parameter, area/orientation unchanged, no zero-length piece, clean idempotent and restoring the original segmentation when no piece is in the degree-reduction regime.",
    note="Trusted: de Casteljau sub-curves of the reference; the degree-reduction regime is decided from the piece's highest difference with a band of undecided cases. Three open known findings (absolute parallel test on tiny segments, pynurbs overflow when re-uniting rational cubics, close parameters now fixed) are excluded by input predicates.",
    ref="4/C15"),
+ "C03": dict(
+   technique="property-based testing (Hypothesis): generated ordered pairs of shapes in five relation families vs an exact witness-point subset oracle",
+   text="Generated ordered pairs over all kind pairs (scaled copies, independent, sub-collections, notch family, inscribed with all vertices on the boundary, singletons); `B in A`, contains_shape, A in A, the consequences for | and &, and contains_jordan with both boundary flags are compared with a witness-point decision that is exact for polygons (offsets shrunk until the exact segment test says the witness lies in the adjacent face).",
+   note="Trusted: refgeom.witness_points / exact polygon predicates. Curved pairs are judged with witnesses at 1e-6*size kept only when clear of every boundary; float contact configurations are not generated (undecidable).",
+   ref="4/C03"),
+ "C17": dict(
+   technique="property-based testing (Hypothesis): one generated closed-curve description rendered through all four constructors, compared pairwise and against the model; generated malformed chains must raise",
+   text="Generated closed curves (polygons of every numeric kind, uniform degree 2/3, mixed degrees) built with from_vertices, from_segments, from_ctrlpoints and from_full_curve; segments, vertices, box, signed length, area, orientation and pairwise == are compared with the model; malformed chains (gap, not closing, string, non-curve) must raise.",
+   note="Trusted: the model description itself and refgeom area/length; from_full_curve is compared with 1e-9 tolerance because it passes through pynurbs arithmetic.",
+   ref="4/C17"),
 }
 NOT_YET = "check not built yet in this round (planned, see DESIGN.md section 4); nothing is claimed for it"
 
